@@ -337,7 +337,13 @@ def encode(c):
 def decode(tree, c):
     k = c['kind']
     if k in ('add', 'del', 'cli'):
-        return dec_result(tree, dec_table)
+        r = dec_result(tree, dec_table)
+        if k == 'cli' and c.get('via') == 'subprocess' and isinstance(r, dict):
+            # the result went through a BIOM file: all-empty metadata is written as null
+            for key in ('omd', 'smd'):
+                if r[key] is not None and all(not e for e in r[key]):
+                    r[key] = None
+        return r
     if k == 'maptext':
         return {'lines': list(c['lines']), 'parsed': dec_result(tree, dec_mapping)}
     lines = [uncps(x) for x in tree[0]]
@@ -672,7 +678,7 @@ def gen_maptext(rng):
             lines = [x for x in lines if not x.startswith('#')]
         elif m == 'data_first' and len(lines) > 1:
             lines = lines[1:2] + lines[:1] + lines[2:]
-        elif m == 'dup_id':
+        elif m == 'dup_id' and lines:
             lines.append(lines[-1])
         elif m == 'only_comments':
             lines = [x for x in lines if x.startswith('#')]
